@@ -142,7 +142,7 @@ theorem removal_ends_publisher_side {s s' : State} {th : Th} {ch ch2 : Nat} {ob 
 theorem removal_notice_is_sent {s s' : State} {th : Th} {sg : Sg} {d : Peer} {ns : List (Sg × Peer)} {ob : Obj} {rest : List MOp} {o : Out}
     (hmem : (sg, d) ∈ ns) (hs : microStep s th sg (peerCode d) (.notify ns ob) rest = some (s', o)) :
     ∃ x ∈ ns, x.1 = sg ∧ peerCode x.2 = peerCode d ∧
-      (((s.ctx th.ctx).peers x.2).isSome = true → (s.ctx th.ctx).routerDown = false →
+      (((s.ctx th.ctx).peers x.2).isSome = true → (s.passed th || !(s.ctx th.ctx).routerDown) = true →
         ∃ tail, s'.prog th = .enq x.2 (.removed ob x.1) :: tail) := by
   simp only [microStep] at hs
   split at hs
@@ -155,7 +155,7 @@ theorem removal_notice_is_sent {s s' : State} {th : Th} {sg : Sg} {d : Peer} {ns
     simp only [decide_eq_true_eq] at hx
     refine ⟨x, hxm, hx.1, hx.2, ?_⟩
     intro hp hrd
-    simp only [hp, hrd, Bool.not_false, Bool.and_self, if_true, Option.some.injEq, Prod.mk.injEq] at hs
+    simp only [hp, hrd, Bool.and_self, if_true, Option.some.injEq, Prod.mk.injEq] at hs
     obtain ⟨rfl, -⟩ := hs
     exact ⟨_, by simp; rfl⟩
 
